@@ -307,7 +307,7 @@ def vc_call_binary(H):
                    z3.Implies(z3.Not(eq.t), z3.BoolVal(raised is not None and not _events(ctx, 'lookup'))))
         ctx.oblige('C14: equal algebras are accepted', z3.Implies(eq.t, z3.BoolVal(raised is None)))
         if raised:
-            raise raised
+            ctx.notes.append('expected-raise'); raise raised
         return r
     H.run_paths(fuc, 'different-algebra-objects', body)
 
